@@ -28,6 +28,12 @@ pub fn main(args: &[String]) -> ! {
     if args[0] == "c14shard" {
         crate::props::c14::shard_main(&args[1..]);
     }
+    if args[0] == "envprobe" {
+        // one line of JSON: item -> digest, computed in the environment this process was given
+        let map = crate::envprobe::compute(Path::new(&args[1]));
+        println!("{}", serde_json::to_string(&map).unwrap());
+        std::process::exit(0);
+    }
     let kind = &args[0];
     let cases_file = &args[1];
     let shard: usize = args[2].parse().unwrap();
